@@ -111,6 +111,39 @@ def h_noisy(env, spec, n, assign, canary=False):
         env.check_true(abs(sum(freqs.values()) - 1) < 1e-9, "frequencies sum to 1")
 
 
+def h_noisy_init(env, spec, n, assign):
+    """noise model together with a complex initial statevector: the state is |psi><psi| followed by the noisy gates"""
+    from tangelo.linq import Circuit
+    from harness.c01 import as_array
+    gates, params = build_gates(env, spec)
+    circ = Circuit(gates, n_qubits=n)
+    nm, ref = make_noise(env, assign)
+    psi = env.state(n, "psi")
+    rho = R.dm_from_state(psi)
+    for (name, tg, ct), th in zip(spec, params):
+        rho = R.dm_apply_unitary_gate(rho, n, name, tg, ct, th if name in PARAM else None)
+        for kind, pr in ref.get(name, []):
+            qs = list(tg) + list(ct or [])
+            if kind == "pauli":
+                for q in qs:
+                    rho = R.dm_pauli_channel(rho, n, q, pr[0], pr[1], pr[2])
+            else:
+                rho = R.dm_depolarize(rho, n, qs, pr)
+    want = rho
+    if env.symbolic:
+        b = backend(env, nm)
+        b.simulate(circ, initial_statevector=as_array(env, psi))
+        got = b.cirq.sampler_calls[0]["rho"]
+        tol = 1e-8
+    else:
+        b = backend(env, nm, n_shots=5)
+        b.simulate(circ, initial_statevector=as_array(env, psi))
+        got = np.asarray(b._current_state)
+        tol = 1e-7
+    env.check_vec_eq([got[i][j] for i in range(2 ** n) for j in range(2 ** n)], [want[i][j] for i in range(2 ** n) for j in range(2 ** n)],
+                     f"noisy density matrix from a complex initial statevector after {spec} with noise {assign}", tol=tol)
+
+
 def h_noisy_expect(env, spec, n, assign, word):
     """per term: distribution handed to the sampler = diagonal of the reference state after the noisy basis rotation"""
     from tangelo.linq import Circuit
@@ -227,6 +260,9 @@ def shapes(tier, seed):
     for i, (spec, n, assign) in enumerate(cases):
         nm = "-".join(s[0] for s in spec) + "/" + "+".join(f"{g}:{k}" for g, k in assign)
         out.append(Shape(f"dm/{i}_{nm}", h_noisy, dict(spec=spec, n=n, assign=assign), modules=MODS, max_paths=32))
+    out.append(Shape("dm_init/0", h_noisy_init, dict(spec=[("RY", [0], [])], n=1, assign=[("RY", "depol")]), modules=MODS, max_paths=32))
+    out.append(Shape("dm_init/1", h_noisy_init, dict(spec=[("H", [0], []), ("CNOT", [1], [0])], n=2, assign=[("CNOT", "pauli")]), modules=MODS, max_paths=32))
+    out.append(Shape("dm_init/zero-rates", h_noisy_init, dict(spec=[("RX", [1], []), ("CZ", [0], [1])], n=2, assign=[]), modules=MODS, max_paths=32))
     out.append(Shape("canary/dm/order", h_noisy, dict(spec=[("RY", [0], []), ("X", [0], [])], n=1, assign=[("X", "pauli")], canary=True),
                      modules=MODS, canary=True, max_paths=32))
     for i, (spec, n, assign) in enumerate(cases[:4] if tier == "quick" else cases[:8]):
